@@ -46,6 +46,7 @@ fn dispatch(name: &str, s: &mut src::ReplaySrc) -> bool {
         "possible_intersection_none_f64" => divide::possible_intersection_contract_body::<f64, _>(s, 0),
         "possible_intersection_point_f64" => divide::possible_intersection_contract_body::<f64, _>(s, 1),
         "possible_intersection_point_f32" => divide::possible_intersection_contract_body::<f32, _>(s, 1),
+        "divide_segment_bump_f32" => divide::divide_segment_bump_f32_body(s),
         "divide_segment_n2_instance" => divide::divide_segment_n2_instance_body(s),
         "divide_segment_contract_f64" => divide::divide_segment_contract_body::<f64, _>(s),
         "divide_segment_contract_f32" => divide::divide_segment_contract_body::<f32, _>(s),
